@@ -36,6 +36,8 @@ _Bool         vg_fg_nl;            /* last successful fgets: C-string view of th
 size_t        vg_fg_len;           /* last successful fgets: position of a NUL in the chunk           */
 char         *vg_fg_buf;           /* last successful fgets: buffer                                   */
 _Bool         vg_fg_ok;            /* last fgets call returned non-NULL                               */
+_Bool         vg_fg_hdr;           /* the stream was just opened by fopen: its next chunk is the      */
+                                   /* header (magic) line that spifconf_open_file consumes            */
 unsigned long vg_deliverable;      /* complete lines (first chunk of a line, ends in newline) read    */
 unsigned long vg_pl_calls;         /* spifconf_parse_line calls (bumped by the entry annotation)      */
 
@@ -58,8 +60,8 @@ unsigned long vg_fchmod_calls;
  *    ASSUMES (as env.h): arguments are C strings (reads stop at the first NUL, every byte
  *    read is still subject to cbmc's pointer checks).
  * ====================================================================================== */
-#define VLOW(c) ((int) (unsigned char) (((c) >= 'A' && (c) <= 'Z') ? (c) + 32 : (c)))
-#define VRAW(c) ((int) (unsigned char) (c))
+#define VLOW(c) (((int) (((c) >= 'A' && (c) <= 'Z') ? (c) + 32 : (c))) & 0xff)
+#define VRAW(c) (((int) (c)) & 0xff)
 #define VCMP_STEP(i, F) \
     if (n <= (i)) return 0; \
     { int ca = F(a[i]), cb = F(b[i]); if (ca != cb) return ca - cb; if (ca == 0) return 0; }
@@ -93,7 +95,6 @@ int strncmp(const char *a, const char *b, size_t n)
 }
 int strcasecmp(const char *a, const char *b)
 {
-    size_t n = 9;
     __CPROVER_assert(a != NULL && b != NULL, "strcasecmp: arguments not NULL");
     __CPROVER_assert(__CPROVER_r_ok(a, 1) && __CPROVER_r_ok(b, 1), "strcasecmp: arguments readable");
 #define VCMP_REC(r) (vg_cmp_last = (r))
@@ -159,20 +160,24 @@ FILE *fopen(const char *path, const char *mode)
 {
     __CPROVER_assert(path != NULL && __CPROVER_r_ok(path, 1), "fopen: path readable");
     __CPROVER_assert(mode != NULL, "fopen: mode not NULL");
-    if (nondet_bool()) { errno = nondet_int(); return (FILE *) 0; }
+    /* ASSUMES (domain of C09: include nesting <= 255): a 256th nested file cannot be opened */
+    if (fstate_idx >= 255 || nondet_bool()) { return (FILE *) 0; }
     vg_open_streams++;
+    vg_fg_hdr = 1;
     return (FILE *) malloc(sizeof(FILE));
 }
 FILE *fdopen(int fd, const char *mode)
 {
     __CPROVER_assert(mode != NULL, "fdopen: mode not NULL");
-    if (fd < 0 || nondet_bool()) { errno = nondet_int(); return (FILE *) 0; }
+    if (fd < 0 || nondet_bool()) { return (FILE *) 0; }
     vg_open_streams++;
     return (FILE *) malloc(sizeof(FILE));
 }
 int fclose(FILE *fp)
 {
-    __CPROVER_assert(fp != NULL, "fclose: stream not NULL");
+    /* "stream not NULL" for the file-stack slot vg_k2 (arbitrary): whenever the current top of the
+     * file stack is slot vg_k2 the stream must be there.  See contracts/conf.h FSFP_AT. */
+    __CPROVER_assert(fstate_idx != vg_k2 || fp != NULL, "fclose: stream not NULL");
     vg_open_streams--;
     return nondet_bool() ? 0 : EOF;
 }
@@ -185,10 +190,11 @@ char *fgets(char *buf, int size, FILE *fp)
 {
     __CPROVER_assert(size > 0, "fgets: size positive");
     __CPROVER_assert(__CPROVER_w_ok(buf, (size_t) size), "fgets: buffer holds size bytes");
-    __CPROVER_assert(fp != NULL, "fgets: stream not NULL");
+    __CPROVER_assert(fstate_idx != vg_k2 || fp != NULL, "fgets: stream not NULL");
     if (vg_fg_budget == 0 || size == 1 || nondet_bool()) {
         vg_fg_ok = 0;
         vg_fg_mid = 0;
+        vg_fg_hdr = 0;
         return (char *) 0;
     }
     vg_fg_budget--;
@@ -201,8 +207,14 @@ char *fgets(char *buf, int size, FILE *fp)
         __CPROVER_assume(r >= 1);
         buf[r - 1] = '\n';
     }
-    if (!vg_fg_mid && nl) vg_deliverable++;
-    vg_fg_mid = !nl;
+    if (vg_fg_hdr) {
+        /* header line (or its first 255 bytes): not a config line; what follows starts a line */
+        vg_fg_hdr = 0;
+        vg_fg_mid = 0;
+    } else {
+        if (!vg_fg_mid && nl) vg_deliverable++;
+        vg_fg_mid = !nl;
+    }
     vg_fg_nl = nl; vg_fg_len = r; vg_fg_buf = buf; vg_fg_ok = 1;
     return buf;
 }
@@ -224,7 +236,7 @@ char *getcwd(char *buf, size_t size)
 {
     if (buf == NULL) return (char *) 0;               /* (glibc would allocate; libast never does this) */
     __CPROVER_assert(size == 0 || __CPROVER_w_ok(buf, size), "getcwd: buffer holds size bytes");
-    if (size == 0 || nondet_bool()) { errno = nondet_int(); return (char *) 0; }
+    if (size == 0 || nondet_bool()) { return (char *) 0; }
     __CPROVER_havoc_slice(buf, size);
     size_t r = nondet_size_t();
     __CPROVER_assume(r < size);
@@ -237,7 +249,7 @@ int stat(const char *path, struct stat *st)
 {
     __CPROVER_assert(path != NULL && __CPROVER_r_ok(path, 1), "stat: path readable");
     __CPROVER_assert(__CPROVER_w_ok(st, sizeof(struct stat)), "stat: result buffer writable");
-    if (nondet_bool()) { errno = nondet_int(); return -1; }
+    if (nondet_bool()) { return -1; }
     __CPROVER_havoc_slice(st, sizeof(struct stat));
     return 0;
 }
@@ -246,7 +258,7 @@ struct v_dir { struct dirent ent; };
 DIR *opendir(const char *path)
 {
     __CPROVER_assert(path != NULL && __CPROVER_r_ok(path, 1), "opendir: path readable");
-    if (nondet_bool()) { errno = nondet_int(); return (DIR *) 0; }
+    if (nondet_bool()) { return (DIR *) 0; }
     vg_open_dirs++;
     return (DIR *) malloc(sizeof(struct v_dir));
 }
@@ -310,7 +322,7 @@ int mkstemp(char *tpl)
     vg_mkstemp_umask = vg_umask_cur;
     vg_mkstemp_tpl_ok = (n >= 6 && tpl[n - 6] == 'X' && tpl[n - 5] == 'X' && tpl[n - 4] == 'X' && tpl[n - 3] == 'X'
                          && tpl[n - 2] == 'X' && tpl[n - 1] == 'X');
-    if (!vg_mkstemp_tpl_ok || nondet_bool()) { errno = nondet_int(); vg_mkstemp_fd = -1; return -1; }
+    if (!vg_mkstemp_tpl_ok || nondet_bool()) { vg_mkstemp_fd = -1; return -1; }
     tpl[n - 6] = nondet_char(); tpl[n - 5] = nondet_char(); tpl[n - 4] = nondet_char();
     tpl[n - 3] = nondet_char(); tpl[n - 2] = nondet_char(); tpl[n - 1] = nondet_char();
     __CPROVER_assume(tpl[n - 6] != 0 && tpl[n - 5] != 0 && tpl[n - 4] != 0 && tpl[n - 3] != 0 && tpl[n - 2] != 0 && tpl[n - 1] != 0);
@@ -321,7 +333,7 @@ int mkstemp(char *tpl)
 }
 int fchmod(int fd, mode_t mode)
 {
-    if (fd < 0 || nondet_bool()) { errno = nondet_int(); return -1; }
+    if (fd < 0 || nondet_bool()) { return -1; }
     vg_fchmod_fd = fd; vg_fchmod_mode = mode; vg_fchmod_calls++;
     return 0;
 }
